@@ -796,6 +796,21 @@ def stepProv (d : ProvDrv) (a : Acc) (s : Step) : ProvDrv × Acc :=
     let a := provInvariants r.2 s.lineNo s.op ok b t
     -- C18: replicas of this block hook on throw-away branches of the same state agreed byte for byte
     -- (return value, every key/value of the provider store, packets, calls to the environment)
+    -- C19: whatever fails inside reward allocation, every (consumer, denom) step is all or nothing:
+    -- per denom, what left the rewards pool reached the distribution module or the community pool,
+    -- and the credits went down by exactly that much (evaluated on every BeginBlock, armed or not)
+    let a := if s.op.name == "begin" then
+        ["stake", "photon", "mote"].foldl (fun a dn =>
+          let crOf := fun (p : ProvImpl) => ((creditsOf p).filter (·.1.2 == dn)).map (·.2) |>.sum
+          let f : Spec.C16.DenomFlow :=
+            { denom := dn,
+              poolBefore := Rewards.getBal (parseBal (before.g.get "pool")) dn, poolAfter := Rewards.getBal (parseBal (r.1.impl.g.get "pool")) dn,
+              distrDelta := Rewards.getBal (parseBal (r.1.impl.g.get "distr")) dn - Rewards.getBal (parseBal (before.g.get "distr")) dn,
+              cpDelta := Rewards.getBal (parseBal (r.1.impl.g.get "cp")) dn - Rewards.getBal (parseBal (before.g.get "cp")) dn,
+              creditBefore := crOf before, creditAfter := crOf r.1.impl, paid := [] }
+          a.spec s.lineNo "C19.reward-step-all-or-nothing" (Spec.C16.bankConserved f && Spec.C16.creditConserved f)
+            s!"{dn} pool {f.poolBefore}->{f.poolAfter} distr+{f.distrDelta} cp+{f.cpDelta} credit {f.creditBefore}->{f.creditAfter}") a
+      else a
     let rep := (s.ob "r").get "rep"
     let a := if rep != "" then (a.tag "replicas-compared").spec s.lineNo "C18.replicas-agree" (rep == "same") rep else a
     let a := if ok && !d.armed then epochSpecs a s.lineNo s.op b t r.1.impl ((s.ob "r").get "sent") else a
